@@ -1,1 +1,835 @@
-fn main(){}
+//! c20-sim — decides property C20 by deterministic simulation with fault injection.
+//!
+//! System under test: the real `graphql-client` binary built (guard off) from /repo's working tree.
+//! Simulated: the GraphQL endpoint (scripted, byte-exact, on loopback), the pre-existing output
+//! file, the flag/header workload. One sub-seed = one plan = one exactly repeatable run.
+//!
+//! Exit codes: 0 held, 1 violation (`VIOLATION property=C20 replay=<file>`), 2 harness error.
+
+mod plan;
+mod sdl2json;
+mod server;
+
+use plan::{Fixture, Meaning, World};
+use serde_json::{json, Value};
+use std::collections::{BTreeMap, BTreeSet, HashMap};
+use std::io::Read;
+use std::path::{Path, PathBuf};
+use std::process::{Command, Stdio};
+use std::sync::atomic::{AtomicBool, AtomicUsize, Ordering};
+use std::sync::Mutex;
+use std::time::{Duration, Instant};
+
+const PROP: &str = "C20";
+const OLD_TEXT: &[u8] = b"precious previous contents\nof the output file\n";
+
+struct Cfg {
+    cli: PathBuf,
+    repo: PathBuf,
+    work: PathBuf,
+    evidence: PathBuf,
+    replays: PathBuf,
+    findings: PathBuf,
+    jobs: usize,
+}
+
+fn load_world(repo: &Path, work: &Path) -> World {
+    let mut fixtures = vec![];
+    let fxdir = work.join("fx");
+    let _ = std::fs::remove_dir_all(&fxdir);
+    std::fs::create_dir_all(&fxdir).unwrap();
+    let mut add_dir = |src: PathBuf, name: String, by_prefix: bool| {
+        let Ok(rd) = std::fs::read_dir(&src) else { return };
+        let mut files: Vec<PathBuf> = rd.filter_map(|e| e.ok()).map(|e| e.path()).filter(|p| p.is_file() && p.extension().map(|e| e == "graphql").unwrap_or(false)).collect();
+        files.sort();
+        let schemas: Vec<&PathBuf> = files.iter().filter(|p| p.file_name().unwrap().to_string_lossy().to_lowercase().contains("schema")).collect();
+        let queries: Vec<&PathBuf> = files.iter().filter(|p| !p.file_name().unwrap().to_string_lossy().to_lowercase().contains("schema")).collect();
+        for s in &schemas {
+            for q in &queries {
+                let sn = s.file_name().unwrap().to_string_lossy().to_string();
+                let qn = q.file_name().unwrap().to_string_lossy().to_string();
+                if by_prefix && sn.split('_').next() != qn.split('_').next() {
+                    continue;
+                }
+                let fname = format!("{}__{}", name, qn.trim_end_matches(".graphql"));
+                let d = fxdir.join(&fname);
+                std::fs::create_dir_all(&d).unwrap();
+                std::fs::copy(s, d.join("served.graphql")).unwrap();
+                std::fs::copy(q, d.join("q.graphql")).unwrap();
+                let big = std::fs::metadata(s).map(|m| m.len() > 50_000).unwrap_or(false);
+                fixtures.push(Fixture { name: fname, sdl_path: d.join("served.graphql").display().to_string(), query_path: d.join("q.graphql").display().to_string(), big });
+            }
+        }
+    };
+    let tests = repo.join("graphql_client/tests");
+    if let Ok(rd) = std::fs::read_dir(&tests) {
+        let mut subs: Vec<PathBuf> = rd.filter_map(|e| e.ok()).map(|e| e.path()).filter(|p| p.is_dir()).collect();
+        subs.sort();
+        for s in subs {
+            let n = s.file_name().unwrap().to_string_lossy().to_string();
+            add_dir(s, n, false);
+        }
+    }
+    add_dir(repo.join("graphql_client_codegen/src/tests"), "codegen".into(), true);
+    add_dir(repo.join("examples/hasura/examples"), "hasura".into(), false);
+    add_dir(repo.join("examples/github/examples"), "github".into(), false);
+    let mut docs = vec![];
+    let gdir = repo.join("graphql_client_cli/src/graphql");
+    if let Ok(rd) = std::fs::read_dir(&gdir) {
+        let mut files: Vec<PathBuf> = rd.filter_map(|e| e.ok()).map(|e| e.path()).filter(|p| p.file_name().unwrap().to_string_lossy().starts_with("introspection_query")).collect();
+        files.sort();
+        for f in files {
+            let text = std::fs::read_to_string(&f).unwrap_or_default();
+            let op = text
+                .lines()
+                .find_map(|l| l.trim().strip_prefix("query ").map(|r| r.trim_end_matches('{').trim().to_string()))
+                .unwrap_or_default();
+            docs.push((f.file_name().unwrap().to_string_lossy().to_string(), text, op));
+        }
+    }
+    if fixtures.is_empty() || docs.len() < 4 {
+        eprintln!("harness error: fixtures ({}) or introspection documents ({}) not found under {}", fixtures.len(), docs.len(), repo.display());
+        std::process::exit(2);
+    }
+    World { fixtures, docs }
+}
+
+fn selects(text: &str, field: &str) -> bool {
+    text.lines().any(|l| l.trim() == field)
+}
+
+/// The document the statement says must be sent for these flags.
+fn expected_doc<'a>(w: &'a World, one_of: bool, by_url: bool) -> Option<&'a (String, String, String)> {
+    w.docs.iter().find(|(_, t, _)| selects(t, "isOneOf") == one_of && selects(t, "specifiedByURL") == by_url)
+}
+
+struct Served {
+    bytes: Vec<u8>,
+    arguable: Vec<String>,
+    has_one_of: bool,
+}
+
+fn served_for(plan: &Value, spec: &Value, w: &World) -> Served {
+    let fx = w.fixtures.iter().find(|f| Some(f.name.as_str()) == spec["fixture"].as_str()).unwrap_or(&w.fixtures[0]);
+    let sdl = std::fs::read_to_string(&fx.sdl_path).unwrap_or_default();
+    let doc = expected_doc(w, plan["is_one_of"].as_bool().unwrap_or(false), plan["specify_by_url"].as_bool().unwrap_or(false)).map(|d| d.1.clone()).unwrap_or_default();
+    match sdl2json::convert(&sdl, &doc) {
+        Ok(c) => {
+            let mut env = if spec["bare"].as_bool().unwrap_or(false) { json!({"__schema": c.schema}) } else { json!({"data": {"__schema": c.schema}}) };
+            if spec["errors"].as_bool().unwrap_or(false) {
+                env["errors"] = json!([{"message": "partial failure", "path": ["__schema", "directives"]}]);
+            }
+            if spec["extensions"].as_bool().unwrap_or(false) {
+                env["extensions"] = json!({"tracing": {"version": 1, "duration": 12345}});
+            }
+            let bytes = if spec["pretty"].as_bool().unwrap_or(false) { serde_json::to_vec_pretty(&env).unwrap() } else { serde_json::to_vec(&env).unwrap() };
+            Served { bytes, arguable: c.arguable, has_one_of: c.has_one_of }
+        }
+        Err(e) => Served { bytes: b"null".to_vec(), arguable: vec![format!("SDL does not parse: {}", e)], has_one_of: false },
+    }
+}
+
+#[derive(Clone, Debug)]
+struct Violation {
+    class: String,
+    detail: String,
+}
+
+struct Outcome {
+    violations: Vec<Violation>,
+    obs: Value,
+    class: String,
+    bucket: String,
+    meaning_success: bool,
+    refused: bool,
+    contacted: bool,
+    codegen_checked: bool,
+    fingerprint: String,
+}
+
+fn run_cli(cfg: &Cfg, args: &[String], dir: &Path, timeout_s: u64) -> (Option<i32>, Vec<u8>, String, bool) {
+    let mut child = Command::new(&cfg.cli)
+        .args(args)
+        .current_dir(dir)
+        .env_clear()
+        .env("PATH", "/usr/bin:/bin")
+        .env("HOME", dir)
+        .env("NO_PROXY", "*")
+        .stdin(Stdio::null())
+        .stdout(Stdio::piped())
+        .stderr(Stdio::piped())
+        .spawn()
+        .unwrap_or_else(|e| {
+            eprintln!("harness error: cannot start {}: {}", cfg.cli.display(), e);
+            std::process::exit(2)
+        });
+    let mut so = child.stdout.take().unwrap();
+    let mut se = child.stderr.take().unwrap();
+    let t1 = std::thread::spawn(move || {
+        let mut v = vec![];
+        let _ = so.read_to_end(&mut v);
+        v
+    });
+    let t2 = std::thread::spawn(move || {
+        let mut v = vec![];
+        let _ = se.read_to_end(&mut v);
+        String::from_utf8_lossy(&v).to_string()
+    });
+    let start = Instant::now();
+    let mut timed_out = false;
+    let status = loop {
+        match child.try_wait() {
+            Ok(Some(s)) => break Some(s),
+            Ok(None) => {
+                if start.elapsed() > Duration::from_secs(timeout_s) {
+                    let _ = child.kill();
+                    let _ = child.wait();
+                    timed_out = true;
+                    break None;
+                }
+                std::thread::sleep(Duration::from_micros(500));
+            }
+            Err(_) => break None,
+        }
+    };
+    let out = t1.join().unwrap_or_default();
+    let err = t2.join().unwrap_or_default();
+    (status.and_then(|s| s.code()), out, err, timed_out)
+}
+
+/// Executes one plan against the real binary and evaluates the oracle.
+fn execute(plan: &Value, w: &World, cfg: &Cfg, slot: usize) -> Outcome {
+    let dir = cfg.work.join(format!("slot{}", slot));
+    let _ = std::fs::remove_dir_all(&dir);
+    std::fs::create_dir_all(&dir).unwrap();
+    let served_cache: Mutex<Option<Served>> = Mutex::new(None);
+    let served_json = |spec: &Value| -> Vec<u8> {
+        let s = served_for(plan, spec, w);
+        let b = s.bytes.clone();
+        *served_cache.lock().unwrap() = Some(s);
+        b
+    };
+    let built = plan::build(&plan["script"], &served_json);
+    let headers: Vec<String> = plan["headers"].as_array().map(|a| a.iter().filter_map(|h| h.as_str().map(|s| s.to_string())).collect()).unwrap_or_default();
+    let refused = headers.iter().any(|h| plan::header_refused(h));
+    // pre-existing output
+    let out_path = dir.join("out.json");
+    let pre: Option<Vec<u8>> = match plan["output"].as_str() {
+        Some("text") => Some(OLD_TEXT.to_vec()),
+        Some("old-schema") => Some(b"{\n  \"data\": {\n    \"__schema\": {\n      \"queryType\": { \"name\": \"OldQuery\" },\n      \"types\": []\n    }\n  }\n}\n".to_vec()),
+        _ => None,
+    };
+    if let Some(p) = &pre {
+        std::fs::write(&out_path, p).unwrap();
+    }
+    let endpoint = server::Endpoint::start(built.behaviour.clone());
+    let https = plan["script"]["https"].as_bool().unwrap_or(false);
+    let url = format!("{}://127.0.0.1:{}{}", if https { "https" } else { "http" }, endpoint.port, plan["path"].as_str().unwrap_or("/graphql"));
+    let mut args: Vec<String> = vec!["introspect-schema".into()];
+    if plan["url_first"].as_bool().unwrap_or(true) {
+        args.push(url.clone());
+    }
+    if plan["is_one_of"].as_bool().unwrap_or(false) {
+        args.push("--is-one-of".into());
+    }
+    for h in &headers {
+        if plan["header_eq"].as_bool().unwrap_or(true) || h.starts_with('-') {
+            args.push(format!("--header={}", h));
+        } else {
+            args.push("--header".into());
+            args.push(h.clone());
+        }
+    }
+    if plan["specify_by_url"].as_bool().unwrap_or(false) {
+        args.push("--specify-by-url".into());
+    }
+    if !plan["output"].is_null() {
+        args.push("--output".into());
+        args.push(out_path.display().to_string());
+    }
+    if let Some(t) = plan["authorization"].as_str() {
+        args.push(format!("--authorization={}", t));
+    }
+    if plan["no_ssl"].as_bool().unwrap_or(false) {
+        args.push("--no-ssl".into());
+    }
+    if !plan["url_first"].as_bool().unwrap_or(true) {
+        args.push(url.clone());
+    }
+    let (code, stdout, stderr, timed_out) = run_cli(cfg, &args, &dir, 90);
+    let seen = endpoint.finish();
+    let after: Option<Vec<u8>> = std::fs::read(&out_path).ok();
+
+    let mut v: Vec<Violation> = vec![];
+    let mut push = |class: &str, detail: String| v.push(Violation { class: class.to_string(), detail });
+    let exit_ok = code == Some(0);
+    if timed_out {
+        push("hang", "the binary did not exit within 90 s although the endpoint never stalls".into());
+    }
+    let full_requests: Vec<&server::Request> = seen.requests.iter().filter(|r| r.complete).collect();
+
+    if refused {
+        if exit_ok {
+            push("refused-header-accepted", format!("exit status 0 with a header text of the refused class: {:?}", headers));
+        }
+        if seen.connections > 0 {
+            push("refused-header-contacted-endpoint", format!("{} connection(s) although a header must be refused", seen.connections));
+        }
+        if pre.is_some() && after != pre {
+            push("output-file-modified-on-failure", "a refused header changed the existing output file".into());
+        }
+    } else {
+        // ---- the request, whenever the endpoint read one completely
+        let doc = expected_doc(w, plan["is_one_of"].as_bool().unwrap_or(false), plan["specify_by_url"].as_bool().unwrap_or(false));
+        for r in &full_requests {
+            if r.method != "POST" {
+                push("request-wrong:method", format!("method {}", r.method));
+            }
+            if Some(r.target.as_str()) != plan["path"].as_str() {
+                push("request-wrong:target", format!("target {} instead of {}", r.target, plan["path"]));
+            }
+            match serde_json::from_slice::<Value>(&r.body) {
+                Ok(Value::Object(m)) => {
+                    let keys: BTreeSet<&str> = m.keys().map(|k| k.as_str()).collect();
+                    let want: BTreeSet<&str> = ["variables", "query", "operationName"].into_iter().collect();
+                    if keys != want {
+                        push("request-wrong:body-members", format!("body members {:?}", keys));
+                    }
+                    let q = m.get("query").and_then(|q| q.as_str()).unwrap_or("");
+                    if !w.docs.iter().any(|(_, t, _)| t == q) {
+                        push("request-wrong:query-not-a-shipped-document", format!("query text ({} bytes) is none of the introspection documents in the repository", q.len()));
+                    }
+                    if selects(q, "isOneOf") != plan["is_one_of"].as_bool().unwrap_or(false) || selects(q, "specifiedByURL") != plan["specify_by_url"].as_bool().unwrap_or(false) {
+                        push("request-wrong:document-for-flags", format!("flags one_of={} by_url={} but the query selects isOneOf={} specifiedByURL={}", plan["is_one_of"], plan["specify_by_url"], selects(q, "isOneOf"), selects(q, "specifiedByURL")));
+                    }
+                    let op_in_text = q.lines().find_map(|l| l.trim().strip_prefix("query ").map(|r| r.trim_end_matches('{').trim().to_string())).unwrap_or_default();
+                    let opn = m.get("operationName").and_then(|o| o.as_str()).unwrap_or("");
+                    if opn != op_in_text || doc.map(|d| d.2.as_str() != opn).unwrap_or(false) {
+                        push("request-wrong:operation-name", format!("operationName {:?}, document declares {:?}", opn, op_in_text));
+                    }
+                }
+                _ => push("request-wrong:body-not-a-json-object", format!("{} body bytes", r.body.len())),
+            }
+            // headers with multiplicity
+            let mut want: BTreeMap<(String, Vec<u8>), usize> = BTreeMap::new();
+            for h in &headers {
+                let (n, val) = plan::header_expected(h);
+                *want.entry((n.to_ascii_lowercase(), val.into_bytes())).or_default() += 1;
+            }
+            if let Some(t) = plan["authorization"].as_str() {
+                *want.entry(("authorization".into(), format!("Bearer {}", t).into_bytes())).or_default() += 1;
+            }
+            for ((n, val), k) in &want {
+                let got = r.headers.iter().filter(|(hn, hv)| hn.to_ascii_lowercase() == *n && hv == val).count();
+                if got < *k {
+                    let class = if n == "authorization" && plan["authorization"].is_string() && val.starts_with(b"Bearer ") { "request-wrong:bearer-authorization" } else { "request-wrong:header-not-carried" };
+                    push(class, format!("header {}: {:?} expected {} time(s), received {}; received headers: {:?}", n, String::from_utf8_lossy(val), k, got, r.headers.iter().map(|(a, b)| format!("{}: {}", a, String::from_utf8_lossy(b))).collect::<Vec<_>>()));
+                }
+            }
+            if plan["authorization"].is_null() && r.headers.iter().any(|(hn, _)| hn.eq_ignore_ascii_case("authorization")) && !headers.iter().any(|h| plan::header_expected(h).0.eq_ignore_ascii_case("authorization")) {
+                push("request-wrong:unexpected-authorization", "an Authorization header was sent without --authorization".into());
+            }
+        }
+        let success_expected = plan::success_expected(&built.meaning);
+        let fault_free = matches!(&built.meaning, Meaning::Complete { .. });
+        if fault_free && (seen.connections != 1 || full_requests.len() != 1) && !timed_out {
+            push("not-exactly-one-request", format!("{} connection(s), {} complete request(s) in a run without transport faults", seen.connections, full_requests.len()));
+        }
+        if success_expected {
+            let Meaning::Complete { body, .. } = &built.meaning else { unreachable!() };
+            let served_value: Value = serde_json::from_slice(body).unwrap();
+            if !exit_ok {
+                push("success-expected-but-failed", format!("2xx reply with a JSON body, exit status {:?}, stderr: {}", code, stderr.chars().take(300).collect::<String>()));
+            } else {
+                let written: Option<Vec<u8>> = if plan["output"].is_null() { Some(stdout.clone()) } else { after.clone() };
+                match written.as_deref().map(serde_json::from_slice::<Value>) {
+                    Some(Ok(val)) => {
+                        if val != served_value {
+                            push("output-differs-from-served-json", format!("written JSON ({} bytes) is not the served JSON ({} bytes)", written.as_ref().map(|w| w.len()).unwrap_or(0), body.len()));
+                        }
+                    }
+                    Some(Err(e)) => push("output-not-json", format!("output does not parse as one JSON value: {}", e)),
+                    None => push("output-missing", "exit status 0 but no output file".into()),
+                }
+            }
+        } else {
+            if exit_ok {
+                push("failure-expected-but-succeeded", format!("reply means {:?} but exit status is 0", short_meaning(&built.meaning)));
+            }
+            if let Some(p) = &pre {
+                if after.as_ref() != Some(p) {
+                    push("output-file-modified-on-failure", format!("existing output file had {} bytes, has {} after a failed run ({})", p.len(), after.as_ref().map(|a| a.len() as i64).unwrap_or(-1), short_meaning(&built.meaning)));
+                }
+            }
+        }
+    }
+    // ---- last clause: the written file generates the same code as the served SDL
+    let mut codegen_checked = false;
+    let served = served_cache.lock().unwrap().take();
+    if v.is_empty() && !refused && exit_ok && plan::success_expected(&built.meaning) && plan["script"]["body"]["kind"] == "schema" {
+        if let Some(s) = served {
+            let one_of_ok = !s.has_one_of || plan["is_one_of"].as_bool().unwrap_or(false);
+            if s.arguable.is_empty() && one_of_ok {
+                let fx = w.fixtures.iter().find(|f| Some(f.name.as_str()) == plan["script"]["body"]["fixture"].as_str()).unwrap();
+                let written = dir.join("written.json");
+                if plan["output"].is_null() {
+                    std::fs::write(&written, &stdout).unwrap();
+                } else {
+                    std::fs::copy(&out_path, &written).unwrap();
+                }
+                let (a, b) = (dir.join("A"), dir.join("B"));
+                std::fs::create_dir_all(&a).unwrap();
+                std::fs::create_dir_all(&b).unwrap();
+                let ga = run_cli(cfg, &["generate".into(), "--no-formatting".into(), "-s".into(), written.display().to_string(), fx.query_path.clone(), "-o".into(), a.display().to_string()], &dir, 120);
+                let gb = run_cli(cfg, &["generate".into(), "--no-formatting".into(), "-s".into(), fx.sdl_path.clone(), fx.query_path.clone(), "-o".into(), b.display().to_string()], &dir, 120);
+                codegen_checked = true;
+                let fa = std::fs::read(a.join("q.rs")).ok();
+                let fb = std::fs::read(b.join("q.rs")).ok();
+                if (ga.0 == Some(0)) != (gb.0 == Some(0)) {
+                    v.push(Violation { class: "codegen-differs-json-vs-sdl".into(), detail: format!("generate from the written file exits {:?}, from the SDL {:?}; stderr: {} / {}", ga.0, gb.0, ga.2.chars().take(200).collect::<String>(), gb.2.chars().take(200).collect::<String>()) });
+                } else if fa != fb {
+                    let (x, y) = (fa.unwrap_or_default(), fb.unwrap_or_default());
+                    let at = x.iter().zip(y.iter()).position(|(p, q)| p != q).unwrap_or(x.len().min(y.len()));
+                    let ctx = |z: &[u8]| String::from_utf8_lossy(&z[at.saturating_sub(60)..(at + 80).min(z.len())]).to_string();
+                    let class = if s.has_one_of { "codegen-differs-json-vs-sdl:one-of-input" } else { "codegen-differs-json-vs-sdl" };
+                    v.push(Violation { class: class.into(), detail: format!("generated code differs at byte {}: from written file …{}… / from SDL …{}…", at, ctx(&x), ctx(&y)) });
+                }
+            }
+        }
+    }
+    let obs = json!({
+        "exit": code,
+        "timed_out": timed_out,
+        "stdout_fp": simcore::fingerprint(&stdout),
+        "stdout_len": stdout.len(),
+        "stderr_head": stderr.replace(&format!(":{}", endpoint_port_str(&url)), ":PORT").chars().take(160).collect::<String>(),
+        "connections": seen.connections,
+        "complete_requests": full_requests.len(),
+        "request_fp": full_requests.first().map(|r| simcore::fingerprint(&normalise_request(&r.raw))),
+        "output_after": after.as_ref().map(|a| json!({"len": a.len(), "fp": simcore::fingerprint(a)})),
+        "meaning": short_meaning(&built.meaning),
+    });
+    let fingerprint = simcore::fingerprint(json!([obs["exit"], obs["stdout_fp"], obs["connections"], obs["complete_requests"], obs["request_fp"], obs["output_after"], v.iter().map(|x| x.class.clone()).collect::<Vec<_>>()]).to_string().as_bytes());
+    Outcome {
+        violations: v,
+        obs,
+        class: built.class,
+        bucket: built.cut_bucket,
+        meaning_success: plan::success_expected(&built.meaning),
+        refused,
+        contacted: seen.connections > 0,
+        codegen_checked,
+        fingerprint,
+    }
+}
+
+fn endpoint_port_str(url: &str) -> String {
+    url.split(':').nth(2).map(|s| s.split('/').next().unwrap_or("").to_string()).unwrap_or_default()
+}
+
+/// The request with the (ephemeral) port of the Host header blanked.
+fn normalise_request(raw: &[u8]) -> Vec<u8> {
+    let s = String::from_utf8_lossy(raw).to_string();
+    let mut out = String::new();
+    for l in s.split_inclusive('\n') {
+        if l.to_ascii_lowercase().starts_with("host:") {
+            out.push_str("host: 127.0.0.1:PORT\r\n");
+        } else {
+            out.push_str(l);
+        }
+    }
+    out.into_bytes()
+}
+
+fn short_meaning(m: &Meaning) -> String {
+    match m {
+        Meaning::Refused => "refused".into(),
+        Meaning::Broken(s) => format!("broken: {}", s),
+        Meaning::Complete { status, body } => format!("complete {} with {} body bytes ({})", status, body.len(), if serde_json::from_slice::<Value>(body).is_ok() { "one JSON value" } else { "not JSON" }),
+    }
+}
+
+fn has_class(o: &Outcome, class: &str) -> bool {
+    o.violations.iter().any(|v| v.class == class)
+}
+
+/// Shrinks a failing plan while the same violation class persists.
+fn minimise(p: &Value, class: &str, w: &World, cfg: &Cfg, slot: usize, budget: usize) -> (Value, usize) {
+    let mut best = p.clone();
+    let mut attempts = 0;
+    let try_plan = |cand: Value, best: &mut Value, attempts: &mut usize| {
+        if *attempts >= budget || cand == *best {
+            return;
+        }
+        *attempts += 1;
+        if has_class(&execute(&cand, w, cfg, slot), class) {
+            *best = cand;
+        }
+    };
+    // headers one by one
+    let mut i = 0;
+    while i < best["headers"].as_array().map(|a| a.len()).unwrap_or(0) {
+        let mut c = best.clone();
+        c["headers"].as_array_mut().unwrap().remove(i);
+        let before = best.clone();
+        try_plan(c, &mut best, &mut attempts);
+        if best == before {
+            i += 1;
+        }
+    }
+    for (k, val) in [("authorization", Value::Null), ("no_ssl", json!(false)), ("is_one_of", json!(false)), ("specify_by_url", json!(false)), ("url_first", json!(true)), ("header_eq", json!(true)), ("path", json!("/graphql"))] {
+        let mut c = best.clone();
+        c[k] = val;
+        try_plan(c, &mut best, &mut attempts);
+    }
+    if best["output"].is_string() && best["output"] != "text" {
+        let mut c = best.clone();
+        c["output"] = json!("text");
+        try_plan(c, &mut best, &mut attempts);
+    }
+    if best["script"]["kind"] == "reply" {
+        for (k, val) in [("interim_100", json!(false)), ("http10", json!(false)), ("segments", json!(1)), ("extra_headers", json!([])), ("suffix", json!("")), ("content_type", json!("application/json")), ("framing", json!("cl")), ("rst", json!(false)), ("cl_delta", json!(0)), ("cut", Value::Null)] {
+            let mut c = best.clone();
+            c["script"][k] = val;
+            try_plan(c, &mut best, &mut attempts);
+        }
+        if best["script"]["body"]["kind"] == "schema" {
+            for (k, val) in [("pretty", json!(false)), ("errors", json!(false)), ("extensions", json!(false)), ("bare", json!(false))] {
+                let mut c = best.clone();
+                c["script"]["body"][k] = val;
+                try_plan(c, &mut best, &mut attempts);
+            }
+            // the smallest fixtures first
+            let mut names: Vec<&Fixture> = w.fixtures.iter().filter(|f| !f.big).collect();
+            names.sort_by_key(|f| std::fs::metadata(&f.sdl_path).map(|m| m.len()).unwrap_or(0));
+            for f in names.iter().take(4) {
+                let mut c = best.clone();
+                c["script"]["body"]["fixture"] = json!(f.name);
+                c["fixture"] = json!(f.name);
+                try_plan(c, &mut best, &mut attempts);
+            }
+            let mut c = best.clone();
+            c["script"]["body"] = json!({"kind": "json", "text": "null"});
+            try_plan(c, &mut best, &mut attempts);
+        }
+    }
+    (best, attempts)
+}
+
+#[derive(Default)]
+struct Agg {
+    runs: u64,
+    distinct: BTreeSet<String>,
+    by_class: BTreeMap<String, u64>,
+    fault_kinds: BTreeMap<String, u64>,
+    probes: BTreeMap<String, u64>,
+    exits: BTreeMap<String, u64>,
+    samples: Vec<Value>,
+    violations: Vec<(u64, Value, String, String)>,
+    codegen_checked: u64,
+    success_runs: u64,
+    failure_runs: u64,
+    refused_runs: u64,
+}
+
+fn bump(m: &mut BTreeMap<String, u64>, k: &str) {
+    *m.entry(k.to_string()).or_default() += 1;
+}
+
+fn absorb(a: &mut Agg, sub: u64, p: &Value, o: &Outcome) {
+    a.runs += 1;
+    bump(&mut a.by_class, &o.class);
+    bump(&mut a.exits, &format!("{}", o.obs["exit"]));
+    let headers: Vec<&str> = p["headers"].as_array().map(|h| h.iter().filter_map(|x| x.as_str()).collect()).unwrap_or_default();
+    let shape = format!(
+        "{}{}{}|auth{}|h{}{}|out:{}|{}|{}",
+        p["is_one_of"].as_bool().unwrap_or(false) as u8,
+        p["specify_by_url"].as_bool().unwrap_or(false) as u8,
+        p["no_ssl"].as_bool().unwrap_or(false) as u8,
+        p["authorization"].is_string() as u8,
+        headers.len(),
+        if o.refused { "R" } else { "" },
+        p["output"].as_str().unwrap_or("stdout"),
+        o.class,
+        o.bucket
+    );
+    if o.contacted || o.refused {
+        a.distinct.insert(shape);
+    }
+    if o.refused {
+        a.refused_runs += 1;
+        bump(&mut a.fault_kinds, "fired:refused-header-text");
+    } else if o.meaning_success {
+        a.success_runs += 1;
+    } else {
+        a.failure_runs += 1;
+        let fam = o.class.split('/').next().unwrap_or("").to_string();
+        let kind = if o.class.contains("close-early") || o.class.contains("no-reply") || o.class.contains("refused-connection") {
+            o.class.clone()
+        } else if o.class.contains("cut-") {
+            format!("reply-cut:{}", o.class.split('/').last().unwrap_or(""))
+        } else if o.class.contains("content-length") {
+            o.class.split('/').last().unwrap_or("").to_string()
+        } else if fam == "2xx" {
+            format!("2xx-non-json:{}", o.class.split('/').nth(1).unwrap_or(""))
+        } else {
+            format!("{}-reply", fam)
+        };
+        bump(&mut a.fault_kinds, &format!("fired:{}", kind));
+    }
+    if o.codegen_checked {
+        a.codegen_checked += 1;
+    }
+    let pre = p["output"].as_str().map(|s| s != "absent").unwrap_or(false);
+    if !o.meaning_success && pre && !o.refused {
+        bump(&mut a.probes, "failure_with_existing_output_file");
+    }
+    if o.meaning_success && pre {
+        bump(&mut a.probes, "success_overwriting_existing_output_file");
+    }
+    if headers.iter().any(|h| !plan::header_refused(h) && plan::header_expected(h).1.contains(':')) {
+        bump(&mut a.probes, "header_value_containing_colon");
+    }
+    if p["is_one_of"] == true && p["specify_by_url"] == true {
+        bump(&mut a.probes, "both_introspection_flags");
+    }
+    if o.class.contains("-rst") && o.bucket == "in-body" {
+        bump(&mut a.probes, "rst_mid_body");
+    }
+    if o.class.contains("cut-chunked") {
+        bump(&mut a.probes, "chunked_reply_cut");
+    }
+    if headers.len() >= 2 {
+        let names: Vec<String> = headers.iter().filter(|h| !plan::header_refused(h)).map(|h| plan::header_expected(h).0.to_ascii_lowercase()).collect();
+        let set: BTreeSet<&String> = names.iter().collect();
+        if set.len() < names.len() {
+            bump(&mut a.probes, "repeated_header_name");
+        }
+    }
+    if p["output"].is_null() && o.meaning_success {
+        bump(&mut a.probes, "success_to_stdout");
+    }
+    if a.samples.len() < 3 && (a.samples.len() as u64) < a.runs / 7 + 1 {
+        a.samples.push(json!({"subseed": sub, "plan": p, "observed": o.obs, "script_class": o.class}));
+    }
+    if let Some(v) = o.violations.first() {
+        if a.violations.len() < 60 {
+            a.violations.push((sub, p.clone(), v.class.clone(), v.detail.clone()));
+        }
+    }
+}
+
+fn main() {
+    let args: Vec<String> = std::env::args().skip(1).collect();
+    let cmd = args.first().cloned().unwrap_or_default();
+    let mut opt: HashMap<String, String> = HashMap::new();
+    let mut positional = vec![];
+    let mut i = 1;
+    while i < args.len() {
+        if let Some(k) = args[i].strip_prefix("--") {
+            if i + 1 < args.len() {
+                opt.insert(k.to_string(), args[i + 1].clone());
+                i += 2;
+                continue;
+            }
+        }
+        positional.push(args[i].clone());
+        i += 1;
+    }
+    let get = |k: &str, d: &str| opt.get(k).cloned().unwrap_or_else(|| d.to_string());
+    let cfg = Cfg {
+        cli: PathBuf::from(get("cli", "/verif/.target/cli/debug/graphql-client")),
+        repo: PathBuf::from(get("repo", "/repo")),
+        work: PathBuf::from(get("work", "/verif/.work/c20")),
+        evidence: PathBuf::from(get("evidence", "/verif/evidence")),
+        replays: PathBuf::from(get("replays", "/verif/replays")),
+        findings: PathBuf::from(get("findings", "/verif/known_findings.json")),
+        jobs: simcore::env_usize("VERIF_JOBS", 16),
+    };
+    let tier = simcore::env_tier(&get("tier", "quick"));
+    let seed = simcore::env_seed();
+    let started = Instant::now();
+    std::fs::create_dir_all(&cfg.work).unwrap();
+    let world = load_world(&cfg.repo, &cfg.work);
+    println!("C20 seed={} tier={} fixtures={} documents={}", seed, tier, world.fixtures.len(), world.docs.len());
+    let with_big = tier == "thorough";
+
+    if cmd == "replay" {
+        let file = positional.first().cloned().unwrap_or_else(|| {
+            eprintln!("usage: c20-sim replay <file>");
+            std::process::exit(2)
+        });
+        let doc: Value = std::fs::read_to_string(&file).ok().and_then(|t| serde_json::from_str(&t).ok()).unwrap_or_else(|| {
+            eprintln!("harness error: cannot read replay file {}", file);
+            std::process::exit(2)
+        });
+        let o = execute(&doc["plan"], &world, &cfg, 0);
+        println!("observed: {}", o.obs);
+        println!("recorded: {}", doc["observed"]);
+        println!("outcome fingerprint {} (recorded {})", o.fingerprint, doc["fingerprint"]);
+        if o.violations.is_empty() {
+            println!("replay: no violation (the property holds on this plan with the current tree)");
+            std::process::exit(0);
+        }
+        for v in &o.violations {
+            println!("replayed violation class={}\n  {}", v.class, v.detail);
+        }
+        println!("VIOLATION property={} replay={}", PROP, file);
+        std::process::exit(1);
+    }
+
+    let n = simcore::env_usize("VERIF_C20_RUNS", if tier == "thorough" { 40_000 } else { 1_500 });
+    let det_n = if cmd == "selftest" { n.max(100) } else if tier == "thorough" { 1_500 } else { 150 };
+    let agg = Mutex::new(Agg::default());
+    let stop = AtomicBool::new(false);
+    if cmd != "selftest" {
+        let next = AtomicUsize::new(0);
+        std::thread::scope(|s| {
+            for slot in 0..cfg.jobs {
+                let (agg, stop, next, world, cfg) = (&agg, &stop, &next, &world, &cfg);
+                s.spawn(move || loop {
+                    let i = next.fetch_add(1, Ordering::Relaxed);
+                    if i >= n || stop.load(Ordering::Relaxed) {
+                        break;
+                    }
+                    let sub = simcore::subseed(seed, "C20/main", i as u64);
+                    let p = plan::generate(sub, world, with_big);
+                    let o = execute(&p, world, cfg, slot);
+                    let mut a = agg.lock().unwrap();
+                    absorb(&mut a, sub, &p, &o);
+                    if a.violations.len() >= 60 {
+                        stop.store(true, Ordering::Relaxed);
+                    }
+                });
+            }
+        });
+    }
+    // determinism: the same plan twice must give the same observations
+    let det_diff = Mutex::new(vec![]);
+    let det_done = AtomicUsize::new(0);
+    {
+        let next = AtomicUsize::new(0);
+        std::thread::scope(|s| {
+            for slot in 0..cfg.jobs {
+                let (next, world, cfg, det_diff, det_done) = (&next, &world, &cfg, &det_diff, &det_done);
+                s.spawn(move || loop {
+                    let i = next.fetch_add(1, Ordering::Relaxed);
+                    if i >= det_n {
+                        break;
+                    }
+                    let sub = simcore::subseed(seed, "C20/determinism", i as u64);
+                    let p = plan::generate(sub, world, false);
+                    let a = execute(&p, world, cfg, slot + 100);
+                    let b = execute(&p, world, cfg, slot + 100);
+                    det_done.fetch_add(1, Ordering::Relaxed);
+                    if a.fingerprint != b.fingerprint {
+                        det_diff.lock().unwrap().push((sub, a.obs.clone(), b.obs.clone()));
+                    }
+                });
+            }
+        });
+    }
+    let det_diff = det_diff.into_inner().unwrap();
+    let mut agg = agg.into_inner().unwrap();
+    let wall = started.elapsed().as_secs_f64();
+
+    let findings = simcore::load_findings(&cfg.findings, PROP);
+    let mut known_hit: BTreeMap<String, u64> = BTreeMap::new();
+    let mut reported: Vec<(String, PathBuf, usize)> = vec![];
+    let mut harness_errors = vec![];
+    let mut done: BTreeSet<String> = BTreeSet::new();
+    let mut per_class: BTreeMap<String, usize> = BTreeMap::new();
+    for (_, _, c, _) in &agg.violations {
+        *per_class.entry(c.clone()).or_default() += 1;
+    }
+    agg.violations.sort_by_key(|(_, p, _, _)| p.to_string().len());
+    for (sub, p, class, _detail) in agg.violations.clone() {
+        if let Some(f) = findings.iter().find(|f| f.status == "known" && f.signature == class) {
+            *known_hit.entry(f.signature.clone()).or_default() += 1;
+            continue;
+        }
+        if done.contains(&class) || reported.len() >= 4 {
+            continue;
+        }
+        let again = execute(&p, &world, &cfg, 0);
+        if !has_class(&again, &class) {
+            harness_errors.push(format!("violation class {} of sub-seed {} did not reproduce", class, sub));
+            continue;
+        }
+        done.insert(class.clone());
+        let (m, attempts) = minimise(&p, &class, &world, &cfg, 0, 60);
+        let o = execute(&m, &world, &cfg, 0);
+        let (m, o) = if has_class(&o, &class) { (m, o) } else { (p.clone(), again) };
+        let _ = std::fs::create_dir_all(&cfg.replays);
+        let path = cfg.replays.join(format!("{}-{}.json", PROP, sub));
+        let v = o.violations.iter().find(|v| v.class == class).unwrap();
+        let doc = json!({
+            "property": PROP, "subseed": sub,
+            "violation": {"class": v.class, "detail": v.detail},
+            "all_violations": o.violations.iter().map(|v| v.class.clone()).collect::<Vec<_>>(),
+            "plan": m, "observed": o.obs, "fingerprint": o.fingerprint, "script_class": o.class,
+            "minimisation_attempts": attempts,
+            "how_to_replay": format!("cd /verif && ./check C20 --replay {}", path.display()),
+        });
+        std::fs::write(&path, serde_json::to_string_pretty(&doc).unwrap() + "\n").unwrap();
+        reported.push((class.clone(), path, per_class.get(&class).copied().unwrap_or(0)));
+    }
+    if !det_diff.is_empty() {
+        harness_errors.push(format!("non-deterministic observations for {} plan(s), e.g. sub-seed {}: {} vs {}", det_diff.len(), det_diff[0].0, det_diff[0].1, det_diff[0].2));
+    }
+
+    let hours = wall / 3600.0;
+    let coverage = json!({
+        "evaluations": agg.runs,
+        "distinct_nontrivial": agg.distinct.len(),
+        "rule": "one evaluation = one run of the real binary against one scripted endpoint; distinct = distinct (flag set, authorization, header count/refusal, pre-existing output state, script class, cut-position bucket) tuples; non-trivial = the run contacted the endpoint or was refused for a header",
+        "samples": agg.samples,
+        "runs_expected_success": agg.success_runs,
+        "runs_expected_failure": agg.failure_runs,
+        "runs_refused_header": agg.refused_runs,
+        "codegen_equivalence_checks": agg.codegen_checked,
+        "script_classes": agg.by_class,
+        "fault_kinds": agg.fault_kinds,
+        "probes": agg.probes,
+        "exit_statuses": agg.exits,
+        "runs_per_hour": if hours > 0.0 { (agg.runs as f64 / hours) as u64 } else { 0 },
+        "seeds": {"master": seed, "sub_seeds": agg.runs},
+        "simulated_time": "none: scripts never stall, so the only timer on these paths (reqwest's 30 s timeout) is never reached; pacing sleeps of 1 ms between segments are outcome-neutral",
+        "determinism": {"plans_run_twice": det_done.load(Ordering::Relaxed), "diverging": det_diff.len()},
+        "components": {
+            "real": ["graphql-client binary (clap, Header::from_str, reqwest::blocking, hyper, tokio runtime thread, serde_json, file output), guard off, from /repo working tree", "graphql-client generate (both routes) for the last clause", "kernel loopback TCP"],
+            "simulated": ["GraphQL endpoint (scripted: what it reads, which bytes it writes in which segments, FIN/RST/refuse)", "pre-existing output file"],
+            "stubbed": ["the endpoint's executor: SDL -> introspection result converter (sim/c20-sim/src/sdl2json.rs)"],
+        },
+        "violation_classes_seen": per_class,
+        "known_findings_matched": known_hit,
+    });
+    let assumptions = vec![
+        "the endpoint reads the whole request before its first reply byte or writes nothing (otherwise TCP reset timing would make outcomes racy)".to_string(),
+        "header names are valid HTTP tokens and values contain no control characters (so that 'carried' is well defined)".to_string(),
+        "stalls/timeouts are out of scope (no clock seam in reqwest)".to_string(),
+    ];
+    simcore::write_evidence(&cfg.evidence, PROP, &tier, seed, coverage, assumptions, wall, reported.len());
+    for (sig, nhit) in &known_hit {
+        let f = findings.iter().find(|f| &f.signature == sig).unwrap();
+        println!("KNOWN-FINDING: property={} {} [{} runs]", PROP, f.what, nhit);
+    }
+    println!(
+        "C20: {} runs ({} expected success, {} expected failure, {} refused), {} distinct non-trivial shapes, {} codegen-equivalence checks, determinism {}/{} identical, {:.1}s",
+        agg.runs, agg.success_runs, agg.failure_runs, agg.refused_runs, agg.distinct.len(), agg.codegen_checked,
+        det_done.load(Ordering::Relaxed) - det_diff.len(), det_done.load(Ordering::Relaxed), wall
+    );
+    if !reported.is_empty() {
+        for (class, path, count) in &reported {
+            println!("violation class={} ({} failing runs)", class, count);
+            println!("VIOLATION property={} replay={}", PROP, path.display());
+        }
+        std::process::exit(1);
+    }
+    if !harness_errors.is_empty() {
+        for e in harness_errors {
+            eprintln!("harness error: {}", e);
+        }
+        std::process::exit(2);
+    }
+}
